@@ -305,6 +305,21 @@ def check_instance(run, v, lib, m, mode, stats):
         return None
     stats['instances'] += 1
     got = impl_tree(mg)
+    # the structure is named by MSH-9.3: another trigger event in MSH-9.2 (PPR^PC2^PPR_PC1 ...) prescribes the same tree
+    if v >= '2.3.1' and mode == 'req':
+        p9 = m.split('_')
+        other = lines[0].replace('%s^%s^%s' % (p9[0], p9[1] if len(p9) > 1 else '', m), '%s^%s^%s' % (p9[0], 'Z99', m))
+        if other != lines[0]:
+            stats['foreign_event_instances'] += 1
+            try:
+                mo = parse_message('\r'.join([other] + lines[1:]), validation_level=S.TOLERANT, find_groups=True)
+                if mo.name != m or impl_tree(mo) != got:
+                    run.fail('forest-differs', 'the group tree depends on the trigger event although MSH-9.3 names the same '
+                             'structure', names=names, with_own_event=got, with_other_event=impl_tree(mo), resolved=mo.name,
+                             **ident)
+            except Exception as ex:  # noqa
+                run.fail('instance-rejected', 'parse_message raises on an instance whose MSH-9.2 is another trigger event',
+                         exc=repr(ex), names=names, **ident)
     attrs = recurrence_attrs(ref, forest)
     unique_inst = all(pl[n] == 1 for n in names)
     unique_struct = all(c == 1 for c in pl.values())
@@ -754,6 +769,32 @@ def impl_version(job):
             'failures': run.failures, 'bad_lines': sorted('%s/%s' % k for k, (l, e) in _LINES.items() if e)}
 
 
+def segment_rows_oracle(run):
+    """In every message and group structure a row of kind SEG named X carries the reference of segment X (the parser
+    builds the segment from the row's reference when group finding is on, from SEGMENTS[X] when it is off)."""
+    import gen_tables
+    n = 0
+    for v in VERSIONS:
+        lib = hl7apy.load_library(v)
+        for tname, table in (('MESSAGES', lib.MESSAGES), ('GROUPS', lib.GROUPS)):
+            for key in sorted(table):
+                ref = table[key]
+                if not (isinstance(ref, (tuple, list)) and len(ref) >= 2 and isinstance(ref[1], (tuple, list))):
+                    continue
+                for row in ref[1]:
+                    if len(row) == 4 and row[3] == 'SEG':
+                        n += 1
+                        std = lib.SEGMENTS.get(row[0])
+                        if row[1] is None and std is None:
+                            continue
+                        if row[1] is not std and not gen_tables.eq(row[1], std):
+                            run.fail('row-reference-mismatch', 'a structure row named after a segment carries another '
+                                     'reference than that segment\'s', version=v, table=tname, structure=key, child=row[0],
+                                     row_reference_is=[k for k in lib.SEGMENTS if lib.SEGMENTS[k] is row[1]][:3],
+                                     row_reference_none=row[1] is None)
+    return n
+
+
 def main(argv=None):
     run = Run('C08', argv)
     if run.replay:
@@ -779,6 +820,7 @@ def main(argv=None):
             bad_lines.extend(res['bad_lines'])
             for kind, what, data in res['failures']:
                 run.fail(kind, what, **data)
+    stats['segment_rows_checked'] = segment_rows_oracle(run)
     run.log('implementation side: %d structures, %d instances, %d random sequences, %d message cases; '
             '%d oracle failures' % (structures, stats['instances'], stats['random_sequences'], len(mcases),
                                     len(run.failures)))
